@@ -26,15 +26,20 @@ type Locker interface {
 
 type Mutex struct {
 	held bool
+	id   int
 }
+
+func (m *Mutex) VrtID() *int { return &m.id }
 
 func (m *Mutex) Lock() {
 	vrt.Await(func() bool { return !m.held }, "Mutex.Lock")
+	vrt.Touch(m)
 	m.held = true
 }
 
 func (m *Mutex) TryLock() bool {
-	vrt.Yield("Mutex.TryLock")
+	vrt.ShimYield("Mutex.TryLock")
+	vrt.Touch(m)
 	if m.held {
 		return false
 	}
@@ -43,6 +48,7 @@ func (m *Mutex) TryLock() bool {
 }
 
 func (m *Mutex) Unlock() {
+	vrt.Touch(m)
 	if !m.held {
 		if vrt.Aborted() {
 			return
@@ -60,20 +66,26 @@ type RWMutex struct {
 	active  bool // the writer owns the lock
 	readers int  // active readers
 	waiting []*rticket
+	id      int
 }
+
+func (rw *RWMutex) VrtID() *int { return &rw.id }
 
 func (rw *RWMutex) Lock() {
 	vrt.Await(func() bool { return !rw.wHeld }, "RWMutex.Lock(w)")
+	vrt.Touch(rw)
 	rw.wHeld = true
 	rw.pending = true
 	if rw.readers > 0 {
 		vrt.Await(func() bool { return rw.readers == 0 }, "RWMutex.Lock(drain)")
+		vrt.Touch(rw)
 	}
 	rw.active = true
 }
 
 func (rw *RWMutex) TryLock() bool {
-	vrt.Yield("RWMutex.TryLock")
+	vrt.ShimYield("RWMutex.TryLock")
+	vrt.Touch(rw)
 	if rw.wHeld || rw.readers > 0 {
 		return false
 	}
@@ -82,6 +94,7 @@ func (rw *RWMutex) TryLock() bool {
 }
 
 func (rw *RWMutex) Unlock() {
+	vrt.Touch(rw)
 	if !rw.active {
 		if vrt.Aborted() {
 			return
@@ -100,7 +113,8 @@ func (rw *RWMutex) Unlock() {
 }
 
 func (rw *RWMutex) RLock() {
-	vrt.Yield("RWMutex.RLock")
+	vrt.ShimYield("RWMutex.RLock")
+	vrt.Touch(rw)
 	if !rw.pending {
 		rw.readers++
 		return
@@ -108,10 +122,12 @@ func (rw *RWMutex) RLock() {
 	t := &rticket{}
 	rw.waiting = append(rw.waiting, t)
 	vrt.Await(func() bool { return t.granted }, "RWMutex.RLock(wait)")
+	vrt.Touch(rw)
 }
 
 func (rw *RWMutex) TryRLock() bool {
-	vrt.Yield("RWMutex.TryRLock")
+	vrt.ShimYield("RWMutex.TryRLock")
+	vrt.Touch(rw)
 	if rw.pending {
 		return false
 	}
@@ -120,6 +136,7 @@ func (rw *RWMutex) TryRLock() bool {
 }
 
 func (rw *RWMutex) RUnlock() {
+	vrt.Touch(rw)
 	if rw.readers <= 0 {
 		if vrt.Aborted() {
 			return
@@ -139,17 +156,21 @@ func (rw *RWMutex) RLocker() Locker { return (*rlocker)(rw) }
 type Once struct {
 	done bool
 	m    Mutex
+	id   int
 }
+
+func (o *Once) VrtID() *int { return &o.id }
 
 func (o *Once) Do(f func()) {
 	// fast-path load and slow-path lock attempt are one visible step: the
 	// state in between is not observable by other threads
 	vrt.Await(func() bool { return o.done || !o.m.held }, "Once.Do")
+	vrt.Touch(o)
 	if o.done {
 		return
 	}
 	o.m.held = true
-	defer o.m.Unlock()
+	defer func() { vrt.Touch(o); o.m.held = false }()
 	if !o.done {
 		defer func() { o.done = true }()
 		f()
@@ -161,7 +182,8 @@ type WaitGroup struct {
 }
 
 func (wg *WaitGroup) Add(d int) {
-	vrt.Yield("WaitGroup.Add")
+	vrt.ShimYield("WaitGroup.Add")
+	vrt.TouchAll()
 	wg.n += d
 	if wg.n < 0 {
 		panic("sync: negative WaitGroup counter")
@@ -170,6 +192,7 @@ func (wg *WaitGroup) Add(d int) {
 func (wg *WaitGroup) Done() { wg.Add(-1) }
 func (wg *WaitGroup) Wait() {
 	vrt.Await(func() bool { return wg.n == 0 }, "WaitGroup.Wait")
+	vrt.TouchAll()
 }
 
 // Map is a plain map whose every operation is one atomic visible step.
@@ -178,13 +201,15 @@ type Map struct {
 }
 
 func (m *Map) Load(key any) (any, bool) {
-	vrt.Yield("Map.Load")
+	vrt.ShimYield("Map.Load")
+	vrt.TouchAll()
 	v, ok := m.m[key]
 	return v, ok
 }
 
 func (m *Map) Store(key, value any) {
-	vrt.Yield("Map.Store")
+	vrt.ShimYield("Map.Store")
+	vrt.TouchAll()
 	if m.m == nil {
 		m.m = map[any]any{}
 	}
@@ -192,7 +217,8 @@ func (m *Map) Store(key, value any) {
 }
 
 func (m *Map) LoadOrStore(key, value any) (any, bool) {
-	vrt.Yield("Map.LoadOrStore")
+	vrt.ShimYield("Map.LoadOrStore")
+	vrt.TouchAll()
 	if v, ok := m.m[key]; ok {
 		return v, true
 	}
@@ -204,19 +230,22 @@ func (m *Map) LoadOrStore(key, value any) (any, bool) {
 }
 
 func (m *Map) LoadAndDelete(key any) (any, bool) {
-	vrt.Yield("Map.LoadAndDelete")
+	vrt.ShimYield("Map.LoadAndDelete")
+	vrt.TouchAll()
 	v, ok := m.m[key]
 	delete(m.m, key)
 	return v, ok
 }
 
 func (m *Map) Delete(key any) {
-	vrt.Yield("Map.Delete")
+	vrt.ShimYield("Map.Delete")
+	vrt.TouchAll()
 	delete(m.m, key)
 }
 
 func (m *Map) Swap(key, value any) (any, bool) {
-	vrt.Yield("Map.Swap")
+	vrt.ShimYield("Map.Swap")
+	vrt.TouchAll()
 	v, ok := m.m[key]
 	if m.m == nil {
 		m.m = map[any]any{}
@@ -227,7 +256,8 @@ func (m *Map) Swap(key, value any) (any, bool) {
 
 // Range visits a snapshot in a deterministic order (string keys sorted).
 func (m *Map) Range(f func(key, value any) bool) {
-	vrt.Yield("Map.Range")
+	vrt.ShimYield("Map.Range")
+	vrt.TouchAll()
 	type kv struct{ k, v any }
 	var all []kv
 	for k, v := range m.m {
